@@ -18,6 +18,25 @@ class Run19(ContractRun):
         self.argobj = {}       # parameter index -> object id (filled by the set-up callbacks)
         self.bufobj = None     # buffer a struct under analysis points into (set-up callback)
 
+    @staticmethod
+    def byte_at(T, obj, off):
+        o = T.objs.get(obj)
+        n = o.info.get('cstr_len') if o is not None else None
+        if n is not None and T.cons.entails_eq(off, n):
+            return Lin(0)
+        v = T.conv.get(('cstrbyte', obj, off.key()))
+        if v is None:
+            for k, w in T.conv.items():
+                if isinstance(k, tuple) and len(k) == 3 and k[0] == 'cstrbyte' and k[1] == obj and isinstance(w, IntVal):
+                    u = T.as_u(w)
+                    # the same position written differently
+                    if u is not None and getattr(w, 'pos', None) is not None and T.cons.entails_eq(off, w.pos):
+                        v = w
+                        break
+        if isinstance(v, IntVal) and T.as_u(v) is not None:
+            return T.as_u(v)
+        return T.fresh_int(8, False, 'unread').u
+
     def check_return(self, fn, spec, env, struct_params, T, rv, posts=None):
         saved = env.names
         env.names = dict(saved)
@@ -33,6 +52,10 @@ class Run19(ContractRun):
                     env.bind('ret_off', rv.off)
                     for n, oid in self.argobj.items():
                         env.bind('ret_in_arg%d' % n, Lin(1 if oid == rv.obj else 0))
+                    # ret_ch / ret_ch1: the characters at the result and behind it, as far as this path has read them (a
+                    # string that is only read keeps one symbol per position) - unknown otherwise
+                    for nm_, d_ in (('ret_ch', 0), ('ret_ch1', 1)):
+                        env.bind(nm_, self.byte_at(T, rv.obj, rv.off + d_))
             for (pname, so, sspec, fs, sname) in struct_params:
                 if sspec is None:
                     continue
